@@ -43,20 +43,43 @@ structure LenC where
   min : Nat := 0
   max : Option Nat := none
 
-inductive Ty where
-  | int (c : IntC) | str (c : LenC) | bool
-  | arr (c : LenC) (nul : Bool) (item : Ty)
-  /-- `closed` = `additionalProperties: false`; fields: name, required, nullable, type -/
-  | obj (closed : Bool) (fields : List (String × Bool × Bool × Ty))
-
-abbrev Field := String × Bool × Bool × Ty
-
 inductive Val where
   | omitted | null
   | int (i : Int) | str (s : String) | bool (b : Bool)
   | arr (xs : List Val)
   /-- one state per field, in field order -/
   | obj (ms : List Val)
+
+/-- presence of a property: named in `required`, optional, or optional with a schema `default` (the decoder sets
+    it before it reads the document: `setDefaults()`) -/
+inductive Pres where
+  | req | opt
+  | dflt (d : Val)
+
+def Pres.isReq : Pres → Bool
+  | .req => true
+  | _ => false
+/-- the member may be in the state `omitted` -/
+def Pres.mayOmit : Pres → Bool
+  | .opt => true
+  | _ => false
+def Pres.isDflt : Pres → Bool
+  | .dflt _ => true
+  | _ => false
+/-- the state of the field before the document is read -/
+def Pres.init : Pres → Val
+  | .dflt d => d
+  | _ => .omitted
+
+inductive Ty where
+  | int (c : IntC) | str (c : LenC) | bool
+  | arr (c : LenC) (nul : Bool) (item : Ty)
+  /-- `closed` = `additionalProperties: false`; fields: name, presence, nullable, type -/
+  | obj (closed : Bool) (fields : List (String × Pres × Bool × Ty))
+
+abbrev Field := String × Pres × Bool × Ty
+
+def initState (f : Field) : Val := f.2.1.init
 
 def Val.isOmitted : Val → Bool
   | .omitted => true
@@ -98,7 +121,7 @@ def memberOf (nul : Bool) (j : Json) (r : Option Val) : Option Val :=
 
 /-- `requiredBitSet` against the mask: every required field was seen -/
 def requiredOk : List Field → List Val → Bool
-  | (_, req, _, _) :: fs, m :: ms => (!req || !m.isOmitted) && requiredOk fs ms
+  | (_, req, _, _) :: fs, m :: ms => (!req.isReq || !m.isOmitted) && requiredOk fs ms
   | [], [] => true
   | _, _ => false
 
@@ -109,7 +132,7 @@ def decode : Ty → Json → Option Val
   | .bool, .bool b => some (.bool b)
   | .arr _ nul t, .arr xs => (decodeItems nul t xs).map .arr
   | .obj closed fs, .obj kvs =>
-    match decodeMembers closed fs (fs.map fun _ => .omitted) kvs with
+    match decodeMembers closed fs (fs.map initState) kvs with
     | some st => if requiredOk fs st then some (.obj st) else none
     | none => none
   | _, _ => none
@@ -133,15 +156,6 @@ end
 /-! ## what the schema says (the specification the codec is measured against) -/
 def names (fs : List Field) : List String := fs.map (·.1)
 
-/-- property names are distinct at every level (they are keys of one `properties` object) -/
-def Ty.WF : Ty → Prop
-  | .arr _ _ t => t.WF
-  | .obj _ fs => (names fs).Nodup ∧ WFs fs
-  | _ => True
-where WFs : List Field → Prop
-  | [] => True
-  | (_, _, _, t) :: fs => t.WF ∧ WFs fs
-
 /-- a member or item position of a value: `omitted` only where the member is optional, `null` only where it is
     nullable, anything else must be a value of the type (`p`) -/
 def memberOk (req nul : Bool) (x : Val) (p : Prop) : Prop :=
@@ -164,7 +178,7 @@ def WTItems (nul : Bool) (t : Ty) : List Val → Prop
   | x :: xs => memberOk true nul x (WT t x) ∧ WTItems nul t xs
 def WTFields : List Field → List Val → Prop
   | [], [] => True
-  | (_, req, nul, t) :: fs, m :: ms => memberOk req nul m (WT t m) ∧ WTFields fs ms
+  | (_, req, nul, t) :: fs, m :: ms => memberOk (!req.mayOmit) nul m (WT t m) ∧ WTFields fs ms
   | _, _ => False
 end
 
@@ -190,7 +204,7 @@ def ValidFields : List Field → List (String × Json) → Prop
   | [], _ => True
   | (n, req, nul, t) :: fs, kvs =>
     (match lookupJ kvs n with
-     | none => req = false
+     | none => req.isReq = false
      | some j => slotOk nul j (Valid t j)) ∧ ValidFields fs kvs
 end
 
@@ -220,6 +234,16 @@ def validateFields : List Field → List Val → Bool
   | (_, _, _, t) :: fs, m :: ms => validate t m && validateFields fs ms
   | _, _ => true
 end
+
+/-- property names are distinct at every level (they are keys of one `properties` object); a `default` is a value
+    of the property's type that satisfies its keywords -/
+def Ty.WF : Ty → Prop
+  | .arr _ _ t => t.WF
+  | .obj _ fs => (names fs).Nodup ∧ WFs fs
+  | _ => True
+where WFs : List Field → Prop
+  | [] => True
+  | (_, req, _, t) :: fs => t.WF ∧ (∀ d, req = .dflt d → WT t d ∧ validate t d = true) ∧ WFs fs
 
 mutual
 /-- the keywords as a predicate on documents (by recursion on the schema); `null` and absent members carry none -/
